@@ -61,6 +61,19 @@ class Server(object):
             ps.dispatch("__redis__:invalidate", keys)
         return True
 
+    def deliver_invalidation_batch(self, redirect_id):
+        """Hand every queued invalidation to the subscriber as ONE message naming all the keys (the message data is an
+        array of keys; the server coalesces keys in broadcasting mode and redis-py may hand over several at once)."""
+        q = self.pending.get(redirect_id) or []
+        if not q:
+            return False
+        keys = [k for m in q for k in m]
+        del q[:]
+        ps = self.subscribers.get(redirect_id)
+        if ps is not None:
+            ps.dispatch("__redis__:invalidate", keys)
+        return True
+
     def snapshot(self):
         return (json.loads(json.dumps(self.data)), dict(self.ttl), {c: set(k) for c, k in self.read_keys.items()},
                 {c: [list(x) for x in q] for c, q in self.pending.items()})
